@@ -93,6 +93,62 @@ def o_group(spec):
     return {"classes": [nm], "nontrivial": a != 0 and b != 0}
 
 
+# ---------------------------------------------------------------- derived gates (history of one gate object)
+# The statement holds for *every* built-in gate with given parameter values, however the gate
+# object was obtained: from the prototype, by replace_params from another gate of the family, or
+# by binding a symbolic instance - and whether or not a matrix was already read from the object
+# it was derived from.
+
+
+@st.composite
+def derived_cases(draw, tier):
+    nm = draw(st.sampled_from([n for n in cgen.NAMES if cgen.TABLE[n][1]]))
+    k = cgen.TABLE[nm][1]
+    steps = []
+    for _ in range(draw(st.integers(2, 4))):
+        steps.append({"p": [draw(params_for()) for _ in range(k)],
+                      "how": draw(st.sampled_from(["replace", "replace", "bind", "fresh"])),
+                      "read": draw(st.booleans()), "read_dagger": draw(st.booleans())})
+    return {"g": nm, "steps": steps}
+
+
+def o_derived(spec):
+    import sympy
+
+    nm = spec["g"]
+    k = cgen.TABLE[nm][0]
+    proto = cgen.build_base({"g": nm, "p": spec["steps"][0]["p"]})
+    syms = [sympy.Symbol("t%d" % i) for i in range(len(spec["steps"][0]["p"]))]
+    g = proto
+    read_before = False
+    cl = set()
+    for i, stp in enumerate(spec["steps"]):
+        ps = stp["p"]
+        if i > 0:
+            if stp["how"] == "replace":
+                g = must(lambda: g.replace_params(tuple(ps)), "replace_params")
+            elif stp["how"] == "bind":
+                sg = must(lambda: g.replace_params(tuple(syms)), "replace_params(symbols)")
+                if stp["read"]:
+                    must(lambda: sg.matrix, "symbolic matrix")
+                g = must(lambda: sg.bind(dict(zip(syms, ps))), "bind")
+            else:
+                g = cgen.build_base({"g": nm, "p": ps})
+            if read_before and stp["how"] != "fresh":
+                cl.add("derived_after_matrix_read")
+        require(tuple(float(x) for x in g.params) == tuple(float(x) for x in ps), lambda: f"{nm}: params {g.params} after step {i}, expected {ps}")
+        M = must(lambda: ref.npm(g.matrix), f"{nm}.matrix")
+        R = ref.closed(nm, ps)
+        require(M.shape == (2 ** k, 2 ** k), lambda: f"{nm} matrix shape {M.shape}")
+        require(ref.close(M, R, 1e-8), lambda: f"{nm}{ps} obtained by '{stp['how']}' at step {i} differs from its closed form, max|d|={ref.maxdiff(M, R):.3g}")
+        require(ref.close(M.conj().T @ M, np.eye(2 ** k), 1e-9), lambda: f"{nm}{ps} (step {i}) not unitary")
+        read_before = True
+        if stp["read_dagger"]:
+            D = must(lambda: ref.npm(g.dagger.matrix), "dagger.matrix")
+            require(ref.close(D, R.conj().T, 1e-8), lambda: f"{nm}{ps}.dagger (step {i}) is not the adjoint")
+    return {"classes": cl | {nm}, "nontrivial": "derived_after_matrix_read" in cl}
+
+
 RELATIONS = ["S2=Z", "T2=S", "SX2=X", "HZH=X", "CNOT=cX", "CZ=cZ", "SWAP", "Delay=I",
              "CNOT=diag(I,X)", "CZ=diag(I,Z)", "I=identity"]
 
@@ -142,4 +198,6 @@ SUBCHECKS = [
     SubCheck("fixed_relations", o_relation, enumerate=lambda t: [{"rel": r} for r in RELATIONS],
              exhaustive=True, rule="all fixed relations, exhaustive"),
 ]
+SUBCHECKS.append(SubCheck("derived_gates", o_derived, strategy=derived_cases, examples=(400, 2500), shards=(2, 8),
+                          rule="one gate family, 2-4 parameter tuples reached by replace_params / bind of a symbolic instance / a fresh call, matrices read in between: every gate object has the matrix of its own parameters; non-trivial = a gate derived from one whose matrix had been read"))
 SUBCHECKS[0].expected_classes = list(cgen.NAMES)
